@@ -159,6 +159,12 @@ func makeCert(g *hx.Gen, subj, issuer keyPair, sigAlg x509.SignatureAlgorithm) (
 	if g.Bool() {
 		tmpl.SignatureAlgorithm = sigAlg
 	}
+	if g.Intn(4) == 0 {
+		// no extensions field at all (an optional element of the TBS structure): the parser keeps
+		// nothing from whatever it decoded before
+		parent := &x509.Certificate{Subject: pkix.Name{CommonName: "Yubico PIV Attestation"}, SerialNumber: big.NewInt(1)}
+		return x509.CreateCertificate(rand.Reader, tmpl, parent, subj.priv.Public(), issuer.priv)
+	}
 	if g.Bool() {
 		tmpl.BasicConstraintsValid, tmpl.IsCA, tmpl.MaxPathLen = true, g.Bool(), g.Intn(3)
 		if tmpl.MaxPathLen == 0 {
